@@ -66,6 +66,25 @@ attribute [local simp] exec exec1 execCases evalE evalEs isOneOf binop convert o
 theorem tbl_se (x : UInt8) : tblLookup "shouldEscape" x.toNat = some (.bool (shouldEscape x)) := rfl
 theorem tbl_hex (x : UInt8) : tblLookup "valToHex" x.toNat = some (.u8 (valToHex x)) := rfl
 
+theorem tbl_hex_shr (x : UInt8) : tblLookup "valToHex" (x.toNat >>> 4) = some (.u8 (valToHex (x >>> 4))) := by
+  rw [← tbl_hex]; simp
+theorem tbl_hex_and (x : UInt8) : tblLookup "valToHex" (x.toNat &&& 15) = some (.u8 (valToHex (x &&& 15))) := by
+  rw [← tbl_hex]; simp
+
+theorem push2 (d : Bytes) (a b : UInt8) : d ++ #[a, b] = (d.push a).push b := by
+  apply Array.toList_inj.mp; simp
+theorem push6 (d : Bytes) (a b c e f g : UInt8) :
+    d ++ #[a, b, c, e, f, g] = (((((d.push a).push b).push c).push e).push f).push g := by
+  apply Array.toList_inj.mp; simp
+
+theorem tbl_se8 : tblLookup "shouldEscape" 8 = some (.bool true) := by decide +kernel
+theorem tbl_se12 : tblLookup "shouldEscape" 12 = some (.bool true) := by decide +kernel
+theorem tbl_se10 : tblLookup "shouldEscape" 10 = some (.bool true) := by decide +kernel
+theorem tbl_se13 : tblLookup "shouldEscape" 13 = some (.bool true) := by decide +kernel
+theorem tbl_se34 : tblLookup "shouldEscape" 34 = some (.bool true) := by decide +kernel
+theorem tbl_se9 : tblLookup "shouldEscape" 9 = some (.bool true) := by decide +kernel
+theorem tbl_se92 : tblLookup "shouldEscape" 92 = some (.bool true) := by decide +kernel
+
 /-- one iteration of the second loop -/
 theorem escBody_step (fuel : Nat) (st : St) (d : Bytes) (x : UInt8)
     (hd : st.env.get "dst" = some (.bytes d)) (hs : st.env.get "s" = some (.u8 x)) :
@@ -73,13 +92,65 @@ theorem escBody_step (fuel : Nat) (st : St) (d : Bytes) (x : UInt8)
     (exec goFuns fuel escBody st = .cont ⟨st.env.set "dst" (.bytes (stepB d x)), st.tape⟩) := by
   by_cases hc : shouldEscape x = true
   · left
-    simp [escBody, goescapeBytes, hd, hs, tbl_se, tbl_hex, hc, stepB, escapeByte]
-    trace_state
-    sorry
+    by_cases h1 : x = 8
+    · subst h1; simp [escBody, goescapeBytes, hd, hs, tbl_se8, hc, stepB, escapeByte, push2]
+    by_cases h2 : x = 12
+    · subst h2; simp [escBody, goescapeBytes, hd, hs, tbl_se12, hc, stepB, escapeByte, push2]
+    by_cases h3 : x = 10
+    · subst h3; simp [escBody, goescapeBytes, hd, hs, tbl_se10, hc, stepB, escapeByte, push2]
+    by_cases h4 : x = 13
+    · subst h4; simp [escBody, goescapeBytes, hd, hs, tbl_se13, hc, stepB, escapeByte, push2]
+    by_cases h5 : x = 34
+    · subst h5; simp [escBody, goescapeBytes, hd, hs, tbl_se34, hc, stepB, escapeByte, push2]
+    by_cases h6 : x = 9
+    · subst h6; simp [escBody, goescapeBytes, hd, hs, tbl_se9, hc, stepB, escapeByte, push2]
+    by_cases h7 : x = 92
+    · subst h7; simp [escBody, goescapeBytes, hd, hs, tbl_se92, hc, stepB, escapeByte, push2]
+    simp [escBody, goescapeBytes, hd, hs, tbl_se, tbl_hex_shr, tbl_hex_and, hc, stepB, escapeByte, push6, h1, h2, h3, h4, h5, h6, h7,
+      Ne.symm h1, Ne.symm h2, Ne.symm h3, Ne.symm h4, Ne.symm h5, Ne.symm h6, Ne.symm h7]
   · right
     have hc' : shouldEscape x = false := by simpa using hc
     simp [escBody, goescapeBytes, hd, hs, tbl_se, hc', stepB, escapeByte_clean]
-    trace_state
-    sorry
+
+theorem execRange_nil (funs : String → Option FunDef) (fuel : Nat) (v : String) (body : List Stmt) (s : St) :
+    execRange funs fuel v [] body s = .normal s := by rw [execRange]
+
+theorem execRange_cons (funs : String → Option FunDef) (fuel : Nat) (v : String) (x : UInt8) (xs : List UInt8)
+    (body : List Stmt) (s : St) :
+    execRange funs fuel v (x :: xs) body s =
+      match exec funs fuel body { s with env := s.env.set v (.u8 x) } with
+      | .normal s' | .cont s' => execRange funs fuel v xs body s'
+      | .brk s' => .normal s'
+      | o => o := by
+  rw [execRange]; cases exec funs fuel body _ <;> rfl
+
+theorem execRangeI_nil (funs : String → Option FunDef) (fuel : Nat) (iv v : String) (k : Nat) (body : List Stmt) (s : St) :
+    execRangeI funs fuel iv v k [] body s = .normal s := by rw [execRangeI]
+
+theorem execRangeI_cons (funs : String → Option FunDef) (fuel : Nat) (iv v : String) (k : Nat) (x : UInt8)
+    (xs : List UInt8) (body : List Stmt) (s : St) :
+    execRangeI funs fuel iv v k (x :: xs) body s =
+      match exec funs fuel body { s with env := (s.env.set iv (.int k)).set v (.u8 x) } with
+      | .normal s' | .cont s' => execRangeI funs fuel iv v (k + 1) xs body s'
+      | .brk s' => .normal s'
+      | o => o := by
+  rw [execRangeI]; cases exec funs fuel body _ <;> rfl
+
+/-- the second loop: a fold of `stepB` over the bytes -/
+theorem esc_loop (fuel : Nat) : ∀ (xs : List UInt8) (st : St) (d : Bytes), st.env.get "dst" = some (.bytes d) →
+    ∃ st', execRange goFuns fuel "s" xs escBody st = .normal st' ∧ st'.tape = st.tape ∧
+      st'.env.get "dst" = some (.bytes (xs.foldl stepB d)) := by
+  intro xs
+  induction xs with
+  | nil => intro st d hd; exact ⟨st, execRange_nil .., rfl, hd⟩
+  | cons x r ih =>
+    intro st d hd
+    have hg1 : (st.env.set "s" (.u8 x)).get "dst" = some (.bytes d) := by simp [hd]
+    have hg2 : (st.env.set "s" (.u8 x)).get "s" = some (.u8 x) := by simp
+    have hstep := escBody_step fuel ⟨st.env.set "s" (.u8 x), st.tape⟩ d x hg1 hg2
+    obtain ⟨st', h1, h2, h3⟩ := ih ⟨(st.env.set "s" (.u8 x)).set "dst" (.bytes (stepB d x)), st.tape⟩ (stepB d x) (by simp)
+    refine ⟨st', ?_, h2, h3⟩
+    rw [execRange_cons]
+    rcases hstep with h | h <;> rw [h] <;> exact h1
 
 end SJ.GoEscape
